@@ -499,6 +499,7 @@ def run(tier, seed):
         failing += raw_stream(ck, tmp, infos)
         failing += reject_stream(ck, tmp)
         failing += reuse_stream(ck, tmp)
+        failing += object_histories(ck, tmp)
         ck.cov["rule"] = (
             "streams: eag (cmd_encrypt.main encrypt-and-generate in-process with os.urandom replaced by a recorded stream: plaintext sizes "
             "0/1/15/16/17/4096/65537 x key ids at CBOR width boundaries x the 5 digest algorithms), eag-cli (real CLI subprocess, real entropy), "
@@ -802,6 +803,55 @@ def reuse_stream(ck, tmp):
             shutil.rmtree(d, ignore_errors=True)
     return fails
 
+def object_histories(ck, tmp):
+    """Histories on ONE Encryptor object (what a library user who keeps the object does): successive encrypt_and_generate calls
+    with different key stores (the context) holding different keys under the same name, different key names in one store, and
+    generate() calls in between.  Every result is judged on its own: it decrypts with the key that THIS call named."""
+    from suit_generator.suit_encrypt_script_base import SuitKWAlgorithms, SuitDigestAlgorithms
+    fails = []
+    rng = ck.rng
+    d = fresh_dir(tmp, "objhist")
+    stores = []
+    for si in range(3):
+        sd = fresh_dir(d, f"store{si}")
+        keys = {}
+        for nm in (KEY_NAME, "other_key"):
+            k = bytes(rng.randrange(256) for _ in range(32))
+            keys[nm] = k
+        kd = write_key(sd, keys[KEY_NAME])
+        with open(os.path.join(kd, "other_key.bin"), "wb") as fh:
+            fh.write(keys["other_key"])
+        stores.append((kd, keys))
+    plans = [[(0, KEY_NAME), (1, KEY_NAME), (0, KEY_NAME), (1, "other_key"), (1, KEY_NAME), (2, "other_key"), (0, "other_key")]]
+    if ck.deep:
+        plans.append([(rng.randrange(3), rng.choice([KEY_NAME, "other_key"])) for _ in range(14)])
+    for pi, plan in enumerate(plans):
+        e = encryptor()
+        hist = []
+        for step, (si, nm) in enumerate(plan):
+            kd, keys = stores[si]
+            n, kid, halg = rng.choice(SIZES[:6]), rng.choice(KIDS), rng.choice(ALGS)
+            pt = mkpt(n, 9000 + step)
+            hist.append({"store": si, "key_name": nm, "plaintext_len": n, "plaintext_seed": 9000 + step, "key_id": kid, "hash_alg": halg})
+            try:
+                if step % 3 == 2:          # an unrelated generate() on the same object in between
+                    blob = bytes(rng.randrange(256) for _ in range(40))
+                    e.generate(blob, bytes(40), 3, SuitKWAlgorithms("aes-kw-256"))
+                content, tag, info, digest, plen = e.encrypt_and_generate(pt, nm, kid, kd, SuitDigestAlgorithms(halg), SuitKWAlgorithms("direct"), kms_script())
+                files = {F_DIGEST: digest, F_SIZE: str(plen).encode(), F_INFO: info, F_CONTENT: tag + content}
+                why = oracle_eag(files, keys[nm], pt, kid, halg)
+            except Exception as ex:  # noqa: BLE001
+                why = f"raised {type(ex).__name__}: {ex}"
+            ck.count("object-history", (pi, step), nontrivial=step > 0, sample={"step": step, "store": si, "key_name": nm, "history": "one Encryptor object"})
+            if why:
+                fails.append({"input": {"op": "encrypt_and_generate on one Encryptor object, step %d" % step, "object_history": hist,
+                                        "stores": [{nm2: k.hex() for nm2, k in ks.items()} for _, ks in stores]},
+                              "observed": why, "expected": "the artifacts of every call decrypt with the key named in that call, from the store given in that call"})
+                break
+    _clean_modules()
+    return fails
+
+
 def search(ck, tmp):
     """Step 6: an obligation broke — sweep the implementation with the oracle over the bounded space."""
     fails = []
@@ -872,6 +922,24 @@ def replay(path):
                          "--output-dir", out, "--hash-alg", st["hash_alg"], "--kms-script", kms_script(), "--encrypt-script", enc_script()], d)
             last = inp["history"][-1]
             why = oracle_eag(read_dir(out), key, mkpt(last["plaintext_len"], last["plaintext_seed"]), last["key_id"], last["hash_alg"])
+        elif "object_history" in inp:
+            from suit_generator.suit_encrypt_script_base import SuitKWAlgorithms, SuitDigestAlgorithms
+            stores = []
+            for si, ks in enumerate(inp["stores"]):
+                sd = fresh_dir(tmp, f"store{si}")
+                kd = write_key(sd, bytes.fromhex(ks[KEY_NAME]))
+                for nm2, k in ks.items():
+                    with open(os.path.join(kd, nm2 + ".bin"), "wb") as fh:
+                        fh.write(bytes.fromhex(k))
+                stores.append((kd, ks))
+            e = encryptor()
+            for step, st in enumerate(inp["object_history"]):
+                kd, ks = stores[st["store"]]
+                pt = mkpt(st["plaintext_len"], st["plaintext_seed"])
+                if step % 3 == 2:
+                    e.generate(bytes(40), bytes(40), 3, SuitKWAlgorithms("aes-kw-256"))
+                content, tag, info, digest, plen = e.encrypt_and_generate(pt, st["key_name"], st["key_id"], kd, SuitDigestAlgorithms(st["hash_alg"]), SuitKWAlgorithms("direct"), kms_script())
+                why = oracle_eag({F_DIGEST: digest, F_SIZE: str(plen).encode(), F_INFO: info, F_CONTENT: tag + content}, bytes.fromhex(ks[st["key_name"]]), pt, st["key_id"], st["hash_alg"])
         elif "into the output directory of earlier" in op:
             print("the failing run is part of a history (successive runs into one output directory): re-running the histories")
             return run("quick", rec.get("seed", 0))
